@@ -55,6 +55,21 @@ type Analysis struct {
 	global Conj
 	// hooks
 	onCall func(f *Frame, c ssa.CallInstruction, callee *ssa.Function, args []AV)
+	// uninterp: module functions treated as uninterpreted (result symbol keyed by the
+	// canonical description of the arguments); each call is recorded
+	uninterp map[*ssa.Function]string
+	ucalls   []UCall
+}
+
+// UCall is one recorded call of an uninterpreted function.
+type UCall struct {
+	fn     *ssa.Function
+	args   []AV
+	res    AV
+	state  DNF
+	pos    token.Pos
+	frame  *Frame
+	nwrite map[*Root]int // number of writes each argument root had when the call happened
 }
 
 type ReturnSite struct {
@@ -64,22 +79,23 @@ type ReturnSite struct {
 }
 
 type Frame struct {
-	an      *Analysis
-	fn      *ssa.Function
-	parent  *Frame
-	depth   int
-	key     string
-	vals    map[ssa.Value]AV
-	objs    map[*ssa.Alloc]*Obj
-	storeN  map[*ssa.Alloc]map[string]int
-	escaped map[*ssa.Alloc]bool
-	edge    map[[2]int]DNF
-	blockIn map[int]DNF
-	returns []ReturnSite
-	cur     DNF
-	curBlk  *ssa.BasicBlock
-	phiInv  map[*ssa.Phi]Conj
-	final   bool
+	an       *Analysis
+	fn       *ssa.Function
+	parent   *Frame
+	depth    int
+	key      string
+	vals     map[ssa.Value]AV
+	objs     map[*ssa.Alloc]*Obj
+	storeN   map[*ssa.Alloc]map[string]int
+	escaped  map[*ssa.Alloc]bool
+	edge     map[[2]int]DNF
+	blockIn  map[int]DNF
+	returns  []ReturnSite
+	cur      DNF
+	curBlk   *ssa.BasicBlock
+	curInstr ssa.Instruction
+	phiInv   map[*ssa.Phi]Conj
+	final    bool
 	// states at instructions of interest
 	stateAt map[ssa.Instruction]DNF
 	child   map[ssa.CallInstruction]*Frame
@@ -647,6 +663,9 @@ func (f *Frame) useIn(ai AInt, st DNF, where string) Aff {
 		if !st.entails(atomGE(c.a, affConst(c.lo))) || !st.entails(atomLE(c.a, affConst(c.hi))) {
 			if f.an.quiet == 0 && len(st) > 0 {
 				f.an.wraps = append(f.an.wraps, WrapEvent{fn: f.fn, pos: c.pos, what: c.what, use: where})
+				if debugTrace {
+					fmt.Printf("WRAPFAIL %s: %s in [%d,%d] at %s\n   state=%s\n", where, c.a.String(), c.lo, c.hi, c.pos, truncate(st.String(), 1500))
+				}
 			}
 			if ai.fallback != nil {
 				return affSym(ai.fallback)
@@ -682,7 +701,10 @@ func (f *Frame) nilness(av AV) *Form {
 			return formConst(true)
 		}
 		if x.nilSym != nil {
-			return formAtom(atomEQ(affSym(x.nilSym), affConst(1)))
+			// a nil slice has length 0
+			return &Form{kind: fPair,
+				pos: DNF{Conj{atomEQ(affSym(x.nilSym), affConst(1)), atomEQ(x.ln, affConst(0))}},
+				neg: DNF{Conj{atomEQ(affSym(x.nilSym), affConst(0))}}}
 		}
 		return formConst(false)
 	case AIface:
@@ -727,6 +749,7 @@ func (f *Frame) newRef(key string, t types.Type) ARef {
 func (f *Frame) set(v ssa.Value, av AV) { f.vals[v] = av }
 
 func (f *Frame) step(in ssa.Instruction) {
+	f.curInstr = in
 	switch x := in.(type) {
 	case *ssa.Phi:
 		f.phiValue(x)
@@ -1069,6 +1092,14 @@ func (f *Frame) sliceOf(v ssa.Value) (ASlice, bool) {
 			arr := s.obj.typ.Underlying().(*types.Array)
 			return ASlice{root: s.obj.arrRoot, off: Aff{}, ln: affConst(arr.Len()), elem: arr.Elem()}, true
 		}
+		// pointer to an array-typed field
+		if s.obj != nil && s.typ != nil {
+			if _, isArr := s.typ.Underlying().(*types.Array); isArr {
+				if as, ok := f.loadPath(s.obj, s.path, s.typ, f.curInstr).(ASlice); ok {
+					return as, true
+				}
+			}
+		}
 	}
 	return ASlice{}, false
 }
@@ -1199,18 +1230,8 @@ func (f *Frame) load(x *ssa.UnOp) AV {
 			// element of a fresh root written exactly once at a constant index: use the stored value
 			abs := s.off.add(p.idx.a)
 			if s.root.fresh {
-				var hit *Write
-				n := 0
-				for _, w := range s.root.writes {
-					if w.kind == wByte && w.off.equal(abs) {
-						hit = w
-						n++
-					} else if !(w.kind == wByte && w.off.isConst() && abs.isConst()) {
-						n += 2 // unknown overlap
-					}
-				}
-				if n == 1 {
-					return hit.val
+				if v, ok := f.readFresh(s.root, abs, 1, true); ok {
+					return v
 				}
 				return f.an.u.symbolic(f.key+x.Name(), x.Type())
 			}
@@ -1226,6 +1247,10 @@ func (f *Frame) load(x *ssa.UnOp) AV {
 	}
 	if p.obj == nil {
 		return f.an.u.symbolic(f.key+x.Name(), x.Type())
+	}
+	if p.obj.arrRoot != nil && p.path == "" {
+		arr := p.obj.typ.Underlying().(*types.Array)
+		return ASlice{root: p.obj.arrRoot, off: Aff{}, ln: affConst(arr.Len()), elem: arr.Elem()}
 	}
 	return f.loadPath(p.obj, p.path, x.Type(), x)
 }
